@@ -153,4 +153,34 @@ def canonicalizeProtocol (idna : Spec.Idna) (L : Nat) (v : Bytes) : Option Bytes
       | some false => some input
       | some true => some (input.map toLowerByte)
 
+/-! ### the small helpers around the callbacks -/
+
+/-- `escape_pattern_string`: a backslash in front of every byte marked in `escape_pattern_table` -/
+def escapePatternString (input : Bytes) : Bytes :=
+  if input.isEmpty then [] else
+  input.flatMap (fun c => if tget Gen.escapePatternTable c.toNat != 0 then [0x5C, c] else [c])
+
+/-- `escape_regexp_string` over `escape_regexp_table` -/
+def escapeRegexpString (input : Bytes) : Bytes :=
+  input.flatMap (fun c => if tget Gen.escapeRegexpTable c.toNat != 0 then [0x5C, c] else [c])
+
+/-- `process_base_url_string(input, type)`; `pattern` = "type is pattern" -/
+def processBaseUrlString (input : Bytes) (pattern : Bool) : Bytes :=
+  if !pattern then input else escapePatternString input
+
+/-- `is_ipv6_address` -/
+def isIpv6Address (input : Bytes) : Bool :=
+  if input.length < 2 then false
+  else if input.head? == some 0x5B then true
+  else if input.take 2 == [0x7B, 0x5B] then true
+  else input.take 2 == [0x5C, 0x5B]
+
+/-- `is_absolute_pathname(input, type)`; `url` = "type is url" -/
+def isAbsolutePathname (input : Bytes) (url : Bool) : Bool :=
+  if input.isEmpty then false
+  else if input.head? == some 0x2F then true
+  else if url then false
+  else if input.length < 2 then false
+  else input[1]? == some 0x2F && (input[0]? == some 0x5C || input[0]? == some 0x7B)
+
 end AdaVerif.Model.PatternCanon
